@@ -178,6 +178,8 @@ def explore_config(case):
     numapi.check_aliasing(res, B, [e["p"] for e in sel][:14], [], case, "config", ("inverse", "to_Matrix"))
     numapi.check_symbol_names(res, B, [e["p"] for e in sel][:6], [], case, "config", ("to_Matrix", "inverse", "product"))
     numapi.check_threads(res, B, numapi.generic_pair([e["p"] for e in sel]), [], case, "config", ("to_Matrix", "inverse", "product"))
+    if is_dp:
+        gutil.check_product_by_position(res, B, [e["p"] for e in sel], [], case, "config", ("identity", "to_Matrix", "inverse", "product"))
     numapi.check_spellings(res, B, [e["p"] for e in sel][:8], [x["p"] for x in alpha.reduced(alpha.elements(lib.alg_layout(G), seed, small=True), 6)], case, "config")
     # ---- words: BFS over {X*g, g*X, X^-1} ---------------------------------------------------------
     gens = _word_generators(elems, M, I, 6 if not is_dp else 4)
